@@ -18,6 +18,13 @@ def gen_hists(seed, tier):
         for rest in ("ff", "hi", rng.randrange(1 << 30), rng.randrange(1 << 30)):
             hists.append([dict(dev=0, b0=t, new_facade=True, rest=rest)])
             hists.append([dict(dev=0, b0=rng.choice([0, 1, 5, 8]), new_facade=True), dict(dev=1, b0=t, new_facade=False, rest=rest)])
+    # the same over three objects of the REAL device class of each transport (stub bindings): the command set and device type stored by an
+    # attach belong to that device object and to no other object of its class
+    for real in ("sg", "iscsi"):
+        for a in (0, 1, 5, 8):
+            for b in (0, 1, 8, 3):
+                hists.append([dict(dev=0, b0=a, new_facade=True, real=real), dict(dev=1, b0=b, new_facade=True, real=real),
+                              dict(dev=2, b0=rng.choice([0, 1, 5, 8, 0x1F]), new_facade=rng.random() < 0.5, real=real)])
     for _ in range(300 if tier == "quick" else 5000):
         hists.append([dict(dev=rng.randint(0, 2), b0=rng.choice([0, 1, 3, 4, 5, 7, 8, 0x0C, 0x1F, rng.randint(0, 255)]),
                            new_facade=rng.random() < 0.3) for _ in range(rng.randint(2, 6))])
